@@ -1,4 +1,5 @@
 import CaoProofs.Lemmas.SimLemmas
+import CaoProofs.Lemmas.ResolveLemmas
 /-! # locals of `main` (compile side) -/
 namespace Cao.Sim
 open Cao Cao.Vm
@@ -513,11 +514,14 @@ set_option linter.unusedSectionVars false
 
 /-- the code of `SetVar n e` for a simple name: the value, then `SetLocalVar` of the slot of `n`
     (a new slot when `n` is not yet a local) -/
-theorem setVar_spec {L : LCtx} {n : String} {e : Card} {s s' : CState}
-    (hn : simpleName n = true) (he : isExpr e = true)
+theorem setVar_specV {L : LCtx} {n : String} {e : Card} {s s' : CState} (PV : Nat → Nat → Prop)
+    (hql : ∀ (sa s1 : CState), processCard e sa = .ok ((), s1) → LInv sa L → QL sa s1)
+    (hval : ∀ (sa s1 : CState), processCard e sa = .ok ((), s1) → LInv sa L → sa.jumpTable = s.jumpTable →
+      AgreeFrom B s1 sa.bytecode.size → (∃ t, F = s1.varIds ++ t) → PV sa.bytecode.size s1.bytecode.size)
+    (hn : simpleName n = true)
     (h : processCard (.setVar n e) s = .ok ((), s')) (hl : LInv s L)
     (hag : AgreeFrom B s' s.bytecode.size) (hv : ∃ t, F = s'.varIds ++ t) :
-    ∃ m, ECodeL B F L e s.bytecode.size m ∧ B.getD m 0 = op.setLocalVar ∧ s'.bytecode.size = m + 5 ∧
+    ∃ m, PV s.bytecode.size m ∧ B.getD m 0 = op.setLocalVar ∧ s'.bytecode.size = m + 5 ∧
       s'.scopeDepth = s.scopeDepth ∧
       match lidx L n with
       | some i => Vm.rdU32 B (m + 1) = i ∧ LInv s' L
@@ -539,12 +543,13 @@ theorem setVar_spec {L : LCtx} {n : String} {e : Card} {s s' : CState}
   -- the value is compiled first
   have key : ∀ (s3 : CState) (i : Nat), writeLocalVar i s3 = .ok ((), s') → s3.bytecode = s1.bytecode →
       s3.varIds = s1.varIds → i < 4294967296 →
-      QL sa s1 ∧ ECodeL B F L e s.bytecode.size s1.bytecode.size ∧ B.getD s1.bytecode.size 0 = op.setLocalVar ∧
+      QL sa s1 ∧ PV s.bytecode.size s1.bytecode.size ∧ B.getD s1.bytecode.size 0 = op.setLocalVar ∧
       Vm.rdU32 B (s1.bytecode.size + 1) = i ∧ s'.bytecode.size = s1.bytecode.size + 5 ∧ QL s3 s' := by
     intro s3 i hw hb3 hv3 hi
     obtain ⟨bw, lw, vw⟩ := writeLocalVar_ok hw
     have hb' : s'.bytecode = s1.bytecode.push op.setLocalVar ++ (le32 (UInt32.ofNat i)).toArray := by rw [bw, hb3]
-    obtain ⟨ql1, hce⟩ := ecodeL_of_processCard B F hF L (by have := hl.len; omega) e he sa s1 h4 hla
+    have ql1 := hql sa s1 h4 hla
+    have hce := hval sa s1 h4 hla (by rw [la.jt, l0.jt])
       (by
         rw [esa]
         refine hag.sub (Nat.le_refl _) (by rw [hb']; simp) fun i _ hi => ?_
@@ -556,7 +561,7 @@ theorem setVar_spec {L : LCtx} {n : String} {e : Card} {s s' : CState}
       by rw [a3, le32_length], lw⟩
   have hl1' : ∀ (ql1 : QL sa s1), LInv s1' L := fun ql1 => (hla.of_ql ql1).of_ql l1
   -- `resolveVar` does not change the state: it only looks at the locals, which the value left alone
-  have hext : QL sa s1 := expr_ql L e he sa s1 h4 hla
+  have hext : QL sa s1 := hql sa s1 h4 hla
   rw [resolveVar_L hne (hl1' hext)] at h5
   simp only [Except.ok.injEq, Prod.mk.injEq] at h5
   obtain ⟨rfl, rfl⟩ := h5
@@ -576,15 +581,28 @@ theorem setVar_spec {L : LCtx} {n : String} {e : Card} {s s' : CState}
     obtain ⟨ql1, k1, k2, k3, k4, k5⟩ := key s1' i h6 b1 v1.ids (by have := lidx_lt hli; have := hl.len; omega)
     refine ⟨s1.bytecode.size, k1, k2, k4, ?_, k3, (hl1' ql1).of_ql k5⟩
     rw [k5.depth, l1.depth, ql1.depth, la.depth, l0.depth]
+theorem setVar_spec {L : LCtx} {n : String} {e : Card} {s s' : CState}
+    (hn : simpleName n = true) (he : isExpr e = true)
+    (h : processCard (.setVar n e) s = .ok ((), s')) (hl : LInv s L)
+    (hag : AgreeFrom B s' s.bytecode.size) (hv : ∃ t, F = s'.varIds ++ t) :
+    ∃ m, ECodeL B F L e s.bytecode.size m ∧ B.getD m 0 = op.setLocalVar ∧ s'.bytecode.size = m + 5 ∧
+      s'.scopeDepth = s.scopeDepth ∧
+      match lidx L n with
+      | some i => Vm.rdU32 B (m + 1) = i ∧ LInv s' L
+      | none => Vm.rdU32 B (m + 1) = L.length ∧ LInv s' (L ++ [(n, curDepth s)]) :=
+  setVar_specV B F hB hF (ECodeL B F L e) (fun sa s1 h4 hla => expr_ql L e he sa s1 h4 hla)
+    (fun sa s1 h4 hla _ hag1 hv1 =>
+      (ecodeL_of_processCard B F hF L (by have := hl.len; omega) e he sa s1 h4 hla hag1 hv1).2) hn h hl hag hv
+
 /-! ## the control-flow arms with locals in scope -/
 
-theorem ifCodeL_spec {L : LCtx} {sd : List Int} {skip : UInt8} {c b : Card} (PB : Nat → Nat → Prop)
-    (ihb : ∀ s s', processCard b s = .ok ((), s') → LInv s L → s.scopeDepth = sd →
+theorem ifCodeL_spec {L : LCtx} {sd : List Int} {J : JumpTable} {skip : UInt8} {c b : Card} (PB : Nat → Nat → Prop)
+    (ihb : ∀ s s', processCard b s = .ok ((), s') → LInv s L → s.scopeDepth = sd → s.jumpTable = J →
       AgreeFrom B s' s.bytecode.size →
       (∃ t, F = s'.varIds ++ t) → LInv s' L ∧ PB s.bytecode.size s'.bytecode.size)
     (hc : isExpr c = true) {s0 s' : CState}
     (h : ifCode skip (processCard c) (processCard b) s0 = .ok ((), s')) (hl : LInv s0 L)
-    (hsd0 : s0.scopeDepth = sd)
+    (hsd0 : s0.scopeDepth = sd) (hj0 : s0.jumpTable = J)
     (hag : AgreeFrom B s' s0.bytecode.size) (hv : ∃ t, F = s'.varIds ++ t) :
     LInv s' L ∧ ∃ m, ECodeL B F L c s0.bytecode.size m ∧ B.getD m 0 = skip ∧
       Vm.rdU32 B (m + 1) = s'.bytecode.size ∧ PB (m + 5) s'.bytecode.size := by
@@ -615,6 +633,7 @@ theorem ifCodeL_spec {L : LCtx} {sd : List Int} {skip : UInt8} {c b : Card} (PB 
   have hl1 : LInv s1 L := (hl.of_ql la).of_ql ql1
   obtain ⟨hl4, hcb⟩ := ihb s3 s4 h8 (hl1.of_ql ((l1.trans l2).trans l3))
     (by rw [l3.depth, l2.depth, l1.depth, ql1.depth, la.depth]; exact hsd0)
+    (by rw [l3.jt, l2.jt, l1.jt, ql1.jt, la.jt]; exact hj0)
     (by
       rw [e3]
       refine hag.sub (by omega) (by omega) fun i hi _ => ?_
@@ -720,16 +739,16 @@ theorem whileCodeL_spec {L : LCtx} {c b : Card} (PB : Nat → Nat → Prop)
   · exact rdU32_patched (by have := hag.size_le; omega) (fun j hj => a2 j (by rw [le32_length]; exact hj))
 
 
-theorem ifElseCodeL_spec {L : LCtx} {sd : List Int} {c t e : Card} (PT PE : Nat → Nat → Prop)
-    (iht : ∀ s s', processCard t s = .ok ((), s') → LInv s L → s.scopeDepth = sd →
+theorem ifElseCodeL_spec {L : LCtx} {sd : List Int} {J : JumpTable} {c t e : Card} (PT PE : Nat → Nat → Prop)
+    (iht : ∀ s s', processCard t s = .ok ((), s') → LInv s L → s.scopeDepth = sd → s.jumpTable = J →
       AgreeFrom B s' s.bytecode.size →
       (∃ t, F = s'.varIds ++ t) → LInv s' L ∧ PT s.bytecode.size s'.bytecode.size)
-    (ihe : ∀ s s', processCard e s = .ok ((), s') → LInv s L → s.scopeDepth = sd →
+    (ihe : ∀ s s', processCard e s = .ok ((), s') → LInv s L → s.scopeDepth = sd → s.jumpTable = J →
       AgreeFrom B s' s.bytecode.size →
       (∃ t, F = s'.varIds ++ t) → LInv s' L ∧ PE s.bytecode.size s'.bytecode.size)
     (hc : isExpr c = true) {s0 s' : CState}
     (h : ifElseCode (processCard c) (processCard t) (processCard e) s0 = .ok ((), s')) (hl : LInv s0 L)
-    (hsd0 : s0.scopeDepth = sd)
+    (hsd0 : s0.scopeDepth = sd) (hj0 : s0.jumpTable = J)
     (hag : AgreeFrom B s' s0.bytecode.size) (hv : ∃ t, F = s'.varIds ++ t) :
     LInv s' L ∧ ∃ m1 m2, ECodeL B F L c s0.bytecode.size m1 ∧ B.getD m1 0 = op.gotoIfFalse ∧
       Vm.rdU32 B (m1 + 1) = m2 + 5 ∧ PT (m1 + 5) m2 ∧ B.getD m2 0 = op.goto ∧
@@ -800,7 +819,8 @@ theorem ifElseCodeL_spec {L : LCtx} {sd : List Int} {c t e : Card} (PT PE : Nat 
       exact ⟨t, by rw [ht, v3.ids, v2.ids, v1.ids]⟩)
   have hl1 : LInv s1 L := (hl.of_ql la).of_ql ql1
   have hsd3 : s3.scopeDepth = sd := by rw [l3.depth, l2.depth, l1.depth, ql1.depth, la.depth]; exact hsd0
-  obtain ⟨hl6, hct⟩ := iht s3 s6 h9 (hl1.of_ql ((l1.trans l2).trans l3)) hsd3
+  have hj3 : s3.jumpTable = J := by rw [l3.jt, l2.jt, l1.jt, ql1.jt, la.jt]; exact hj0
+  obtain ⟨hl6, hct⟩ := iht s3 s6 h9 (hl1.of_ql ((l1.trans l2).trans l3)) hsd3 hj3
     (by
       rw [e3]
       refine hag.sub (by omega) (by omega) fun i hi hi' => ?_
@@ -810,6 +830,7 @@ theorem ifElseCodeL_spec {L : LCtx} {sd : List Int} {c t e : Card} (PT PE : Nat 
     (hl1.of_ql ((l1.trans l2).trans l3)).locals_ne
   obtain ⟨hl8, hce⟩ := ihe sc s8 h13 (hl6.of_ql ((((l10.trans l11).trans l5).trans l7).trans lc))
     (by rw [lc.depth, l7.depth, l5.depth, l11.depth, l10.depth, hbal6.scopeDepth]; exact hsd3)
+    (by rw [lc.jt, l7.jt, l5.jt, l11.jt, l10.jt, (kp_run (processCard_kp t) h9).jt]; exact hj3)
     (by
       rw [esc]
       refine hag.sub (by omega) (by omega) fun i hi _ => ?_
@@ -923,9 +944,9 @@ theorem scodeL_of_processCard (L : LCtx) :
     simp only [processCard] at h
     obtain ⟨_, s0, h0, h1⟩ := bind_ok.1 h
     obtain ⟨b0, l0, v0⟩ := cardLabel_ok' h0
-    have := ifCodeL_spec B F hB hF (SCodeL B F L b) (fun s s' h hl _ => scodeL_of_processCard L b hc.2 s s' h hl) hc.1
+    have := ifCodeL_spec B F hB hF (SCodeL B F L b) (fun s s' h hl _ _ => scodeL_of_processCard L b hc.2 s s' h hl) hc.1
       (show ifCode op.gotoIfFalse (processCard c) (processCard b) s0 = .ok ((), s') from h1)
-      (hl.of_ql l0) rfl (by rw [b0]; exact hag) hv
+      (hl.of_ql l0) rfl rfl (by rw [b0]; exact hag) hv
     rw [b0] at this
     obtain ⟨hl', m, q1, q2, q3, q4⟩ := this
     exact ⟨hl', by simp only [SCodeL]; exact ⟨m, q1, q2, q3, q4⟩⟩
@@ -935,9 +956,9 @@ theorem scodeL_of_processCard (L : LCtx) :
     simp only [processCard] at h
     obtain ⟨_, s0, h0, h1⟩ := bind_ok.1 h
     obtain ⟨b0, l0, v0⟩ := cardLabel_ok' h0
-    have := ifCodeL_spec B F hB hF (SCodeL B F L b) (fun s s' h hl _ => scodeL_of_processCard L b hc.2 s s' h hl) hc.1
+    have := ifCodeL_spec B F hB hF (SCodeL B F L b) (fun s s' h hl _ _ => scodeL_of_processCard L b hc.2 s s' h hl) hc.1
       (show ifCode op.gotoIfTrue (processCard c) (processCard b) s0 = .ok ((), s') from h1)
-      (hl.of_ql l0) rfl (by rw [b0]; exact hag) hv
+      (hl.of_ql l0) rfl rfl (by rw [b0]; exact hag) hv
     rw [b0] at this
     obtain ⟨hl', m, q1, q2, q3, q4⟩ := this
     exact ⟨hl', by simp only [SCodeL]; exact ⟨m, q1, q2, q3, q4⟩⟩
@@ -960,9 +981,9 @@ theorem scodeL_of_processCard (L : LCtx) :
     obtain ⟨_, s0, h0, h1⟩ := bind_ok.1 h
     obtain ⟨b0, l0, v0⟩ := cardLabel_ok' h0
     have := ifElseCodeL_spec B F hB hF (SCodeL B F L t) (SCodeL B F L e)
-      (fun s s' h hl _ => scodeL_of_processCard L t hc.1.2 s s' h hl) (fun s s' h hl _ => scodeL_of_processCard L e hc.2 s s' h hl) hc.1.1
+      (fun s s' h hl _ _ => scodeL_of_processCard L t hc.1.2 s s' h hl) (fun s s' h hl _ _ => scodeL_of_processCard L e hc.2 s s' h hl) hc.1.1
       (show ifElseCode (processCard c) (processCard t) (processCard e) s0 = .ok ((), s') from h1)
-      (hl.of_ql l0) rfl (by rw [b0]; exact hag) hv
+      (hl.of_ql l0) rfl rfl (by rw [b0]; exact hag) hv
     rw [b0] at this
     obtain ⟨hl', m1, m2, q1, q2, q3, q4, q5, q6, q7⟩ := this
     exact ⟨hl', by simp only [SCodeL]; exact ⟨m1, m2, q1, q2, q3, q4, q5, q6, q7⟩⟩
@@ -1132,7 +1153,7 @@ theorem compileUnit_mainL {unit : Array FunctionIr} {sf : CState} (h : compileUn
   · obtain ⟨_, _, h1, _⟩ := bind_ok.1 h
     simp at h1
   · obtain ⟨_, s1, h1, h⟩ := bind_ok.1 h
-    have e1 := addFunctions_ok _ h1
+    have e1 := addFunctions_okS _ h1
     obtain ⟨_, s2, h2, h⟩ := bind_ok.1 h
     simp only [modify_run, Except.ok.injEq, Prod.mk.injEq, true_and] at h2
     obtain ⟨_, s3, h3, h⟩ := bind_ok.1 h
